@@ -26,7 +26,7 @@ Init == /\ file = NoFile /\ tmpf = NoFile /\ mem = EmptyMap /\ dirty = FALSE /\ 
         /\ fl = EmptyMap /\ up = TRUE /\ dur = EmptyMap /\ nops = 0 /\ ncrash = 0 /\ ok = TRUE /\ hist = <<>>
 
 Idle == up /\ cur = "none" /\ pc = <<>> /\ nops < MaxOps
-Log(s) == hist' = IF Emit THEN Append(hist, s) ELSE hist
+Log(s) == hist' = (IF Emit THEN Append(hist, s) ELSE hist)
 
 JSet(k, v) == /\ Idle /\ mem' = [mem EXCEPT ![k] = v] /\ dirty' = TRUE /\ nops' = nops + 1
               /\ Log("jset " \o ToString(k) \o " " \o ToString(v))
